@@ -61,6 +61,10 @@ fn main() {
         "C12-WORKER" => checks::c12::worker_main(&args[2..]),
         "C05" => checks::c05::run(&tier, only.as_ref()),
         "C04" => checks::c04::run(&tier, only.as_ref()),
+        "C15" => checks::c15::run(&tier, only.as_ref()),
+        "C06" => checks::c06::run(&tier, only.as_ref()),
+        "C07" => checks::c07::run(&tier, only.as_ref()),
+        "C13" => checks::c13::run(&tier, only.as_ref()),
         "C08" => checks::c08::run(&tier, only.as_ref()),
         "C03" => checks::c03::run(&tier, only.as_ref()),
         _ => {
